@@ -28,6 +28,7 @@ import (
 	"github.com/libsv/go-bt/v2"
 	"github.com/libsv/go-bt/v2/bscript"
 	"github.com/libsv/go-bt/v2/bscript/interpreter"
+	"github.com/libsv/go-bt/v2/bscript/interpreter/scriptflag"
 	"github.com/libsv/go-bt/v2/sighash"
 	"github.com/libsv/go-bt/v2/unlocker"
 
@@ -54,15 +55,15 @@ type History struct {
 }
 
 type EngineRound struct {
-	Seed       uint64 `json:"seed"`
-	Goroutines int    `json:"goroutines"`
-	Procs      int    `json:"gomaxprocs"`
-	Jobs       int    `json:"jobs"`
+	Seed       uint64   `json:"seed"`
+	Goroutines int      `json:"goroutines"`
+	Procs      int      `json:"gomaxprocs"`
+	Jobs       int      `json:"jobs"`
 	Kinds      []string `json:"kinds"`
-	Concurrent []bool `json:"concurrent"`
-	Sequential []bool `json:"sequential"`
-	Race       string `json:"race,omitempty"`
-	Deadlock   bool   `json:"deadlock,omitempty"`
+	Concurrent []bool   `json:"concurrent"`
+	Sequential []bool   `json:"sequential"`
+	Race       string   `json:"race,omitempty"`
+	Deadlock   bool     `json:"deadlock,omitempty"`
 }
 
 type Result struct {
@@ -526,6 +527,7 @@ func p2pkhJobs(r *common.Rand) []job {
 	}
 	variant := r.Intn(6)
 	legacy := variant == 5
+	strict := r.Bool() // also run the signature-encoding checks (DER, low S: they consult package-level big.Int values)
 	for i := 0; i < nin; i++ {
 		flags := sighash.AllForkID
 		if legacy {
@@ -561,6 +563,9 @@ func p2pkhJobs(r *common.Rand) []job {
 			o := []interpreter.ExecutionOptionFunc{interpreter.WithTx(tx, i, prev), interpreter.WithAfterGenesis()}
 			if !legacy {
 				o = append(o, interpreter.WithForkID())
+			}
+			if strict {
+				o = append(o, interpreter.WithFlags(scriptflag.VerifyLowS|scriptflag.VerifyDERSignatures|scriptflag.VerifyStrictEncoding|scriptflag.VerifyNullFail|scriptflag.VerifyMinimalData))
 			}
 			return o
 		}})
